@@ -130,6 +130,12 @@ theorem feed_chainWrap (c : List Adapter) (f : Sink κ Item εk) (k : κ) (items
         cases u
         exact ih k'
 
+theorem feed_infallible {ε : Type} (g : κ → ι → κ) (k : κ) (xs : List ι) :
+    feed (εk := ε) (fun k t => (g k t, .ok ())) k xs = (xs.foldl g k, .ok ()) := by
+  induction xs generalizing k with
+  | nil => rfl
+  | cons x xs ih => simp [feed, ih]
+
 theorem chainItems_append (c : List Adapter) (a b : List Item) :
     chainItems c (a ++ b) = chainItems c a ++ chainItems c b := by
   simp [chainItems, List.filterMap_append]
